@@ -31,7 +31,12 @@ DISK = {
 	'b': 'from vm.c import make\n\nv = make()\n',
 	'a': 'from vm.b import v\n\nx = v\n\ndef twice(n: int) -> int:\n\treturn n * 2 + x\n',
 	# (the generic function stands at the same tree path as the only function of a and of c: anything remembered per tree path across modules shows)
-	'd': "from typing import TypeVar\n\nT = TypeVar('T')\n\nclass K:\n\tn: int\n\tdef __init__(self, n: int) -> None:\n\t\tself.n = n\n\ndef ident(v: T) -> T:\n\treturn v\n\nk = K(1)\n",
+	# (... and a generic class of the module itself takes a class declared further down as its type argument: the stored
+	# symbol table has to list `Late` before the key that mentions it, whatever was registered under `Box` before)
+	'd': "from typing import Generic, TypeVar\n\nT = TypeVar('T')\n\nclass K:\n\tn: int\n\tdef __init__(self, n: int) -> None:\n\t\tself.n = n\n\ndef ident(v: T) -> T:\n\treturn v\n\nk = K(1)\n"
+		"\nclass Box(Generic[T]):\n\tvalue: T\n\n\tdef __init__(self, value: T) -> None:\n\t\tself.value = value\n"
+		"\nclass Scene:\n\tdef late(self) -> 'Box[Late]':\n\t\treturn Box(Late())\n\n\tdef size(self) -> int:\n\t\treturn self.late().value.size()\n"
+		"\nclass Late:\n\tdef size(self) -> int:\n\t\treturn 1\n",
 }
 MAIN = {
 	'ia': 'from vm.a import x, twice\n\nm = twice(x)\n',
